@@ -21,9 +21,9 @@ def run(tier, seed):
     ctx = core.Ctx(PID, tier, seed)
     quick = tier == "quick"
     rng = random.Random(seed)
-    X.mc_stage(ctx, ["pfi_a"] if quick else ["pfi_a", "pfi_b", "pfi_c", "pfi_d"],
+    X.mc_stage(ctx, ["pfi_a"] if quick else ["pfi_a", "pfi_b", "pfi_c", "pfi_d", "pfi_o", "pfi_def"],
                "RunningStatistic ContributionDefinition FirstCallSeedsOnly FirstCallNoModel VarNonNegative LockStep")
-    X.replay_stage(ctx, ["pfi_q"] if quick else ["pfi_q", "pfi_a", "pfi_prod"], wanted_replay, limit=None if quick else 3000, rng=rng)
+    X.replay_stage(ctx, ["pfi_q"] if quick else ["pfi_q", "pfi_a", "pfi_prod", "pfi_o"], wanted_replay, limit=None if quick else 3000, rng=rng)
     n = 120 if quick else 1500
     scs = E.fault_free_batch(rng, n, quick, cls="pfi")
     for i, sc in enumerate(scs):
